@@ -7,9 +7,29 @@ use std::borrow::Cow;
 use verif_harness::values::*;
 use verif_harness::*;
 
+thread_local! {
+    /// Borrowed keys are interned so that prefix-related keys are slices of ONE buffer starting at the same
+    /// address (e.g. "nam" = &"name2"[..3]) — the situation `&path[..n]` produces in user code.
+    static ARENA: std::cell::RefCell<Vec<&'static str>> = std::cell::RefCell::new(Vec::new());
+}
+
+fn intern(k: &str) -> &'static str {
+    ARENA.with(|a| {
+        let mut a = a.borrow_mut();
+        for s in a.iter() {
+            if s.starts_with(k) {
+                return &s[..k.len()];
+            }
+        }
+        let l = leak(k);
+        a.push(l);
+        l
+    })
+}
+
 fn key(flag: &Sexp, k: &Sexp) -> Cow<'static, str> {
     if flag.is_sym("b") {
-        Cow::Borrowed(leak(k.as_str()))
+        Cow::Borrowed(intern(k.as_str()))
     } else {
         Cow::Owned(k.as_str().to_string())
     }
@@ -19,6 +39,17 @@ fn run(case: &Sexp) -> Sexp {
     let c = case.as_list();
     let mode = c[1].as_str();
     let ops = c[2].as_list();
+    // intern the longest borrowed keys first, so that shorter ones become prefixes slices of them
+    ARENA.with(|a| a.borrow_mut().clear());
+    let mut bkeys: Vec<&str> = ops
+        .iter()
+        .filter(|o| o.tag() != "iter" && o.as_list()[1].is_sym("b"))
+        .map(|o| o.as_list()[2].as_str())
+        .collect();
+    bkeys.sort_by_key(|k| std::cmp::Reverse(k.len()));
+    for k in bkeys {
+        intern(k);
+    }
     let lead = ops.iter().take_while(|o| o.tag() == "set").count();
     let pairs: Vec<(Cow<'static, str>, FluentValue<'static>)> = ops[..lead]
         .iter()
